@@ -397,7 +397,10 @@ def meshes(ctx, navis, rng):
         if np.any(V.min(axis=0) < lo - 1e-6) or np.any(V.max(axis=0) > hi + 1e-6):
             ctx.violation('surface of a voxel grid leaves the extent of the filled voxels (in the grid\'s coordinates: index * size + offset)', d,
                           dict(mesh_min=V.min(axis=0).tolist(), mesh_max=V.max(axis=0).tolist(), lo=lo.tolist(), hi=hi.tolist())); continue
-        if np.any(V.min(axis=0) > lo + np.array(size)) or np.any(V.max(axis=0) < hi - np.array(size)):
+        # single pass only: the iso-surface of a binary grid runs half a voxel around the filled voxels, so a surface that stays a whole
+        # voxel short of their extent is misplaced.  Not demanded of the CHUNKED mesher: on the unchanged tree it can leave out part of
+        # the object (chunk seams), which makes the surface smaller but keeps it inside the extent - outside what this property states.
+        if chunk in (None, 0) and (np.any(V.min(axis=0) > lo + np.array(size)) or np.any(V.max(axis=0) < hi - np.array(size))):
             ctx.violation('surface of a voxel grid does not reach the extent of the filled voxels (misplaced by offset / spacing)', d,
                           dict(mesh_min=V.min(axis=0).tolist(), mesh_max=V.max(axis=0).tolist(), lo=lo.tolist(), hi=hi.tolist()))
     # ---- skeletons of meshes stay inside the mesh's bounding box; vertex_map is total
